@@ -33,6 +33,7 @@ pub open spec fn combine(a: Summary, b: Summary) -> Summary {
 }
 
 //@extract closure bigtools/src/bbi/bbiwrite.rs write_vals advance
+//@rule R16
 //@header fn advance_write_vals(summary: &mut Option<Summary>, data: BBIDataProcessoredData)
 //@rule R5 min=4
 //@presub /let data = p\.destroy\(\);\n/ => "" min=1
@@ -53,6 +54,7 @@ pub open spec fn combine(a: Summary, b: Summary) -> Summary {
 //@end
 
 //@extract closure bigtools/src/bbi/bbiwrite.rs write_vals_no_zoom advance
+//@rule R16
 //@header fn advance_write_vals_no_zoom(summary: &mut Option<Summary>, chrom_summary: Summary)
 //@rule R5 min=4
 //@presub /let data = p\.destroy\(\);\s*let NoZoomsInternalProcessedData\(chrom_summary, zoom_counts\) = data;\n/ => "" min=1
